@@ -57,6 +57,18 @@ def check(tier, seed):
                 frs = [f_ for f_ in frs if 10 not in f_] or [G.frame(6, 1, b'\x01')]
                 s = rng.choice([b'', b'\r\n']) + rng.choice([b'$GPGGA,12', b'$GNTXT,01,01,02,x', b'$GPRMC,']) + b''.join(frs) + b'\r\n' + G.frame(5, 1, b'\x06\x01')
                 filt = G.CIDS
+            elif k % 10 == 7:
+                # long backlogs: dozens of matching frames / checksum-failed frames before anything is fetched
+                cid = rng.choice(G.CIDS)
+                nf = rng.choice([15, 16, 17, 18, 31, 33, 46, 65, 130])
+                parts_ = []
+                for j in range(nf):
+                    f_ = bytearray(G.frame(cid[0], cid[1], bytes([j & 255])))
+                    if rng.random() < 0.2:
+                        f_[-1] ^= 0x21
+                    parts_.append(bytes(f_))
+                s = b''.join(parts_)
+                filt = [cid]
             elif k % 2:
                 segs, s, _ = G.rand_segments(rng, 4)
                 filt = G.rand_filter(rng, segs)
